@@ -366,11 +366,11 @@ def elide_res(res):
     if res["st"] != "ok":
         return res
     out = dict(res)
-    out["items"] = [{"k": e["k"], "v": ev(e["v"])} for e in res["items"]]
+    out["items"] = [{"k": ev(e["k"]), "v": ev(e["v"])} for e in res["items"]]
     if res["fmt"] == "sm":
         out["charts"] = [{"fields": [ev(f) for f in c["fields"]], "extra": [ev(x) for x in c["extra"]]} for c in res["charts"]]
     else:
-        out["charts"] = [[{"k": e["k"], "v": ev(e["v"])} for e in c] for c in res["charts"]]
+        out["charts"] = [[{"k": ev(e["k"]), "v": ev(e["v"])} for e in c] for c in res["charts"]]
     return out
 
 
